@@ -227,9 +227,29 @@ struct Printer {
     cjk: bool,
     /// tag -> line
     lines: BTreeMap<u32, usize>,
+    /// non-zero: lines made of nothing but spaces or tabs (what an editor leaves behind on a
+    /// "blank" line) are put between statements; they count as lines and mean nothing else
+    ws: u64,
 }
 
 impl Printer {
+    fn maybe_blank(&mut self) {
+        if self.ws == 0 || self.line == 0 {
+            return;
+        }
+        let h = crate::prng::mix(self.ws, self.line as u64);
+        if h % 4 != 0 {
+            return;
+        }
+        let k = [1usize, 2, 2, 2, 3, 4, 4, 6, 8][((h >> 8) % 9) as usize];
+        let c = if (h >> 16) % 6 == 0 { "\t" } else { " " };
+        let k = if c == "\t" { 1 + k % 2 } else { k };
+        for _ in 0..k {
+            self.out.push_str(c);
+        }
+        self.out.push('\n');
+        self.line += 1;
+    }
     fn ln(&mut self, indent: usize, s: &str) {
         for _ in 0..indent {
             self.out.push_str("  ");
@@ -275,6 +295,7 @@ impl Printer {
                 skip_next = false;
                 continue;
             }
+            self.maybe_blank();
             // two @warn directives on one line (SCSS): their spans share a line, nothing else
             if let (Node::Warn { tag: t1, vars: v1 }, Some(Node::Warn { tag: t2, vars: v2 })) = (n, nodes.get(ni + 1)) {
                 if !self.sass && t1 % 4 == 0 {
@@ -920,10 +941,11 @@ pub fn gen_script(rng: &mut Rng, root: &str) -> Script {
     let crlf = g.rng.chance(0.2);
     let no_final_newline = g.rng.chance(0.2);
     let tabs = g.rng.chance(0.15);
+    let ws = if g.rng.chance(0.3) { g.rng.next_u64() | 1 } else { 0 };
     let mut texts = vec![];
     let mut lines = vec![];
     for f in &files {
-        let mut p = Printer { out: String::new(), line: 0, sass: f.sass, cjk, lines: BTreeMap::new() };
+        let mut p = Printer { out: String::new(), line: 0, sass: f.sass, cjk, lines: BTreeMap::new(), ws };
         p.file(f, &files);
         // CRLF line ends: line numbers stay the same, byte offsets and line terminators do not
         let mut t = if crlf { p.out.replace('\n', "\r\n") } else { p.out };
